@@ -105,3 +105,14 @@ def oriented(cmp: ast.Compare, is_subject):
     if is_subject(r) and op in FLIP:
         return r, FLIP[op], l
     return None
+
+
+def path_guards(cfg, path, rewrite=None):
+    """[(test expr, outcome)] of the tests taken along one CFG path (list of nodes); `rewrite` may normalise each test."""
+    out = []
+    for a, b in zip(path, path[1:]):
+        if a.kind == "test" and hasattr(a.ast, "test"):
+            lbl = next((l for m_, l in cfg.succ[a] if m_ is b), None)
+            if lbl in ("True", "False"):
+                out.append((rewrite(a.ast.test) if rewrite else a.ast.test, lbl == "True"))
+    return out
